@@ -5,7 +5,9 @@
     The hypotheses [loc_ok]/[sc_ok]/[params_ok]/[run_ok] are exactly the booleans the correspondence shards evaluate
     on every step of every generated history with the location/scale the implementation produced. *)
 From Coq Require Import PrimFloat.
-From PV Require Import Lib.Common Model.C15_Bv Proofs.C15_Bv.
+From Coq Require Import Reals.
+From Flocq Require Import Core.
+From PV Require Import Lib.Common Model.C15_Bv Proofs.C15_Bv Proofs.C15_Round.
 Local Open Scope Q_scope.
 
 (** unscale(from_numpy(raw)) = raw for every trait column, every location/scale the run-time check accepts
@@ -14,6 +16,22 @@ Theorem C15_unscale_from_numpy : forall (raw : list oq) (l s : oq),
   loc_ok raw l = true -> sc_ok raw s = true -> coleq (col_unscale (col_from_numpy raw l s)) raw.
 Proof. exact unscale_from_numpy_col. Qed.
 Print Assumptions C15_unscale_from_numpy.
+
+(** ... and in floating point "to rounding error": in the standard model of floating-point arithmetic (each operation returns the
+    exact result times (1+e), |e| <= u) the value  rnd(rnd(s * rnd(rnd(1/s) * rnd(x - l))) + l)  computed by unscale() after from_numpy()
+    differs from x by at most |x-l| ((1+u)^4 - 1) + u (|x| + |x-l| ((1+u)^4 - 1))  ~  4u|x-l| + u|x| ... *)
+Theorem C15_roundtrip_rounding_error : forall (rnd : R -> R) (u : R), (0 <= u)%R ->
+  (forall r, exists e, (Rabs e <= u)%R /\ rnd r = (r * (1 + e))%R) ->
+  forall x l s : R, s <> 0%R ->
+  (Rabs (roundtrip rnd x l s - x) <= Rabs (x - l) * B4 u + u * (Rabs x + Rabs (x - l) * B4 u))%R.
+Proof. exact roundtrip_error. Qed.
+Print Assumptions C15_roundtrip_rounding_error.
+(** ... which radix-2, 53-bit round-to-nearest-even arithmetic satisfies with u = 2^-53 (Flocq FLX format: binary64 barring overflow/underflow) *)
+Theorem C15_roundtrip_rounding_error_binary64 : forall x l s : R, s <> 0%R ->
+  let u := (/ 2 * bpow radix2 (- 53 + 1))%R in
+  (Rabs (roundtrip rnd64 x l s - x) <= Rabs (x - l) * B4 u + u * (Rabs x + Rabs (x - l) * B4 u))%R.
+Proof. exact roundtrip_error_binary64. Qed.
+Print Assumptions C15_roundtrip_rounding_error_binary64.
 
 (** a missing value stays missing and contaminates no other entry: the NaN patterns of unscale() and of the stored
     matrix are those of the raw values *)
@@ -78,7 +96,7 @@ Print Assumptions C15_constant_trait_unit_scale.
 
 (** in binary64 the mean of three equal values need not be that value: from_numpy then sees a non-zero deviation,
     hence a scale of ~1e-17 instead of 1 (the known finding C15-constant-rounding) *)
-Theorem C15_constant_float_mean_refuted : exists x : float,
+Theorem C15_constant_float_mean_refuted : exists x : PrimFloat.float,
   let m := PrimFloat.div (PrimFloat.add (PrimFloat.add x x) x) 3%float in PrimFloat.eqb (PrimFloat.sub x m) 0%float = false.
 Proof. exists 0x1.999999999999ap-4%float. vm_compute. reflexivity. Qed.
 Print Assumptions C15_constant_float_mean_refuted.
